@@ -47,6 +47,13 @@ def gen_cases(ctx):
         c["bt"] = {k: ("periodic" if v == "bloch" else v) for k, v in c["bt"].items()}
         c.update(kind="hand", complex=True, steps=2)
         cases.append(c)
+    # conductive fully anisotropic tiers (3x3 update matrices A = M1^-1 M2, B = c M1^-1 T; model/YeeFull.v forward_lossy), forced complex storage
+    for i in range(ctx.pick(2, 8)):
+        c = C01.rand_case(ctx.rng, True, 4 * i + (1 if i % 2 else 0))      # uniform and stretched grids
+        c.pop("kvec", None)
+        c["bt"] = {k: ("periodic" if v == "bloch" else v) for k, v in c["bt"].items()}
+        c.update(kind="hand", complex=True, steps=2, full_eps=True, full_mu=bool(i % 3 != 1), sigma="EH", full_sigma=bool(i % 2 == 0), pow2=True, lossy9=True)
+        cases.append(c)
     return cases
 
 
@@ -64,6 +71,9 @@ def coq_expr(case, out):
         return None
     if "error" in out:
         return "false"
+    if case.get("lossy9"):
+        st = out["states"]
+        return Y.lossy_steps_expr(case["shape"], Y.scene_term(case, out), out, list(zip(st, st[1:])), scale=max(Y.maxabs(out), 1.0))
     return C01.coq_expr(case, out)
 
 
